@@ -124,3 +124,27 @@ func VerifC19_Nested() {
 	zz.Assert("C19.nested.verifies-iff-every-component-signed-in-position", got == (ia == 0 && ib == 0 && ck == 0))
 	zz.Reach("C19.nested")
 }
+
+// VerifC20_PubKeyJSONHostile: the JSON decoders of both public-key types return an error (or a key) for every input
+// of up to 3 arbitrary bytes - they never panic.
+func VerifC20_PubKeyJSONHostile() {
+	n := zz.Choice("len", 4)
+	data := zz.Bytes("data", n)
+	panicked := false
+	func() {
+		defer func() {
+			if r := recover(); r != nil {
+				panicked = true
+			}
+		}()
+		if zz.Choice("type", 2) == 0 {
+			var pk Ed25519PublicKey
+			_ = pk.UnmarshalJSON(data)
+		} else {
+			var pk Secp256k1PublicKey
+			_ = pk.UnmarshalJSON(data)
+		}
+	}()
+	zz.Assert("C20.pubkey-json.never-panics", !panicked)
+	zz.Reach("C20.pubkey-json.end")
+}
